@@ -958,14 +958,17 @@ class DiskRefsContainer(RefsContainer):
     def subkeys(self, base: Ref) -> set[Ref]:
         """Return subkeys under a given base reference path."""
         subkeys: set[Ref] = set()
+        # Match whole path components only: b"refs/heads" is not a base of
+        # b"refs/heads-old/x".
+        prefix = base.rstrip(b"/") + b"/"
 
         for key in self._iter_loose_refs(base):
-            if key.startswith(base):
-                subkeys.add(Ref(key[len(base) :].strip(b"/")))
+            if key.startswith(prefix):
+                subkeys.add(Ref(key[len(prefix) :]))
 
         for key in self.get_packed_refs():
-            if key.startswith(base):
-                subkeys.add(Ref(key[len(base) :].strip(b"/")))
+            if key.startswith(prefix):
+                subkeys.add(Ref(key[len(prefix) :]))
         return subkeys
 
     def allkeys(self) -> set[Ref]:
